@@ -205,6 +205,10 @@ func Generate(profile string, seed uint64, tier string) (*Scenario, error) {
 			}
 		}
 		sc.Ops = append(sc.Ops, Op{K: "backup"}, Op{K: "restoreCheck"})
+		if g.P(0.12) && !reset {
+			sc.Ops = append(sc.Ops, Op{K: "moveBackupLocation"}, Op{K: "backup"}, Op{K: "restoreCheck"})
+			return sc, nil
+		}
 		if g.P(0.2) && !reset {
 			// after a completed run the hub is stopped and started, a dataset is deleted before anything else is
 			// written, and the hub is stopped and started again (a clean stop each time): the next run has to carry
